@@ -61,7 +61,10 @@ def make_branch(rng, kind, bid, n1, n2, dec, cplx, exact=False):
     elif kind == 'load_v':
         b.update(ctor='load_v', P=value(rng, 0, 2, exact), V_ref=value(rng, 0, 2, exact))
         if cplx and rng.random() < 0.5:
-            b['Q'] = rng.choice([1, -1]) * value(rng, 0, 2, exact)
+            # (the value is drawn to keep the random stream, but not used: no statement fixes the sign of Q of a voltage-rated load,
+            # and the library's Y = (P + jQ)/V^2 - the conjugate of what its own current-rated form implies - must not become the
+            # oracle's law: a repaired library would then be flagged)
+            rng.choice([1, -1]) * value(rng, 0, 2, exact)
     elif kind == 'load_i':
         b.update(ctor='load_i', P=value(rng, 0, 2, exact), I_ref=value(rng, -2, 0, exact))
         if cplx and rng.random() < 0.5:
